@@ -158,7 +158,7 @@ CHECKS = {
              'history <= 4 and thousands of two-thread scenarios with real threads under a token-passing scheduler (virtual lock, '
              'socket with separate read / write halves, select, queue, thread start/join; servers that accept, refuse, disconnect, close '
              'or stall in the middle of a frame); every execution is judged event by event by the contract.',
-        note='Contract clause (g): the default reaction to a packet never tears down a connection a listener made in the meantime (listeners reconnecting on the play disconnect packet). Contract clause (e): a failed connection\'s error handling must not tear down a connection made before the failure. Lifecycle servers announce compression at random and C16 owns the session grammar (Trace_Session): a reconnect that opens with an undecodable handshake has not connected again. Trusted: TLC, the scheduler and virtual primitives (semantics observed on real sockets), CPython atomicity of attribute '
+        note='A negotiation interrupted by the user (disconnect(immediate) while the status query is unanswered, then connect()): the ended connection stays ended, the new one negotiates and logs in with the server version (fix 3b8210b). Contract clause (g): the default reaction to a packet never tears down a connection a listener made in the meantime (listeners reconnecting on the play disconnect packet). Contract clause (e): a failed connection\'s error handling must not tear down a connection made before the failure. Lifecycle servers announce compression at random and C16 owns the session grammar (Trace_Session): a reconnect that opens with an undecodable handshake has not connected again. Trusted: TLC, the scheduler and virtual primitives (semantics observed on real sockets), CPython atomicity of attribute '
              'access. API bodies are atomic in the model because the code holds the write lock throughout. Contract clause (f): the disconnect '
              'that ends a thread\'s own error handling never takes down another thread\'s uninterrupted connection (fix 29c3a80; NoCrossTeardown in the model). '
              'Timed joins may expire whenever the joiner is scheduled again before the other thread ended.',
